@@ -544,7 +544,11 @@ func (e *Exec) instr(fr *Frame, st *State, in ssa.Instruction) {
 			// field of a library struct: opaque box keyed by object and field
 			e.nilCheck(fr, st, base, x.Pos())
 			m := e.heapMap("F_"+structName(stT)+"."+sanitize(u.Field(x.Field).Name()), "(Array Int "+e.sc.sortOf(ft)+")")
-			fr.regs[x] = Val{T: "0", Typ: x.Type(), NonNil: true, Loc: &Loc{Kind: LField, Base: base.T, Map: m, Typ: ft}}
+			prov, root := base.Prov, base.Root
+			if prov == "" {
+				prov, root = structName(stT), base.T
+			}
+			fr.regs[x] = Val{T: "0", Typ: x.Type(), NonNil: true, Loc: &Loc{Kind: LField, Base: base.T, Map: m, Typ: ft, Prov: prov + "." + u.Field(x.Field).Name(), Root: root}}
 			return
 		}
 		e.nilCheck(fr, st, base, x.Pos())
@@ -558,6 +562,19 @@ func (e *Exec) instr(fr *Frame, st *State, in ssa.Instruction) {
 		case fkArray:
 			r := app(e.embFun(stT, x.Field), base.T)
 			fr.regs[x] = Val{T: r, Typ: x.Type(), NonNil: true, Loc: &Loc{Kind: LArray, Base: r, Typ: ft}}
+		}
+		if r, ok := fr.regs[x]; ok && r.Loc != nil && r.Loc.Kind == LField {
+			bv := e.val(fr, st, x.X)
+			stT := types.Unalias(x.X.Type()).Underlying().(*types.Pointer).Elem()
+			fname := stT.Underlying().(*types.Struct).Field(x.Field).Name()
+			prov, root := bv.Prov, bv.Root
+			if prov == "" {
+				prov, root = strings.TrimPrefix(structName(stT), ""), bv.T
+				if bv.Loc != nil && bv.Loc.Kind == LField {
+					root = e.locAddrTerm(bv.Loc)
+				}
+			}
+			r.Loc.Prov, r.Loc.Root = prov+"."+fname, root
 		}
 	case *ssa.IndexAddr:
 		xv := e.val(fr, st, x.X)
@@ -791,6 +808,18 @@ func (e *Exec) instrUnOp(fr *Frame, st *State, x *ssa.UnOp) {
 			e.sc.assume(st.reach, e.sc.rangeFact(r.T, t))
 			e.sc.assume(st.reach, e.allocFact(st, r.T, t))
 		}
+		// provenance (for lock classification): kept through library pointers such as *sync.Cond,
+		// reset when a pointer to one of the repository's own structs is loaded
+		if l.Kind == LField && l.Prov != "" {
+			keep := true
+			if pt, ok := types.Unalias(t).Underlying().(*types.Pointer); ok && e.isModelStruct(pt.Elem()) {
+				keep = false
+			}
+			if keep {
+				r.Prov, r.Root = l.Prov, l.Root
+				fr.regs[x] = r
+			}
+		}
 		// closures / function values stored in cells keep their identity
 		if l.Kind == LCell {
 			if fv, ok := e.cellFn(fr, l.Cell); ok {
@@ -874,6 +903,9 @@ func (e *Exec) instrSlice(fr *Frame, st *State, x *ssa.Slice) {
 		} else {
 			mx = capT
 			e.safety(fr, st, fmt.Sprintf("(and (<= 0 %s) (<= %s %s) (<= %s %s))", lo, lo, hi, hi, capT), "slice", "slice bounds out of range", x.Pos())
+		}
+		if lo == "1" && x.High == nil && isIntElem(t.Elem()) {
+			e.sumDropHead(st, xv.T)
 		}
 		e.setReg(fr, st, x, Val{T: fmt.Sprintf("(mk_slice (s_arr %s) (+ (s_off %s) %s) (- %s %s) (- %s %s))", xv.T, xv.T, lo, hi, lo, mx, lo)})
 	case *types.Pointer:
